@@ -204,6 +204,20 @@ theorem ne_of_prefix_ne {a b : MKey} {n : Nat} {p : List Nat} {x y : Nat}
   have := List.append_cancel_left hb
   simp at this; exact hxy this
 
+theorem lex_of_prefix {a b : List Nat} {n : Nat} {p : List Nat} {x y : Nat}
+    (ha : a.take n = p ++ [x]) (hb : b.take n = p ++ [y]) (hxy : x < y) : List.Lex (· < ·) a b := by
+  have ha' : a = p ++ (x :: a.drop n) := by
+    conv => lhs; rw [← List.take_append_drop n a, ha]
+    simp
+  have hb' : b = p ++ (y :: b.drop n) := by
+    conv => lhs; rw [← List.take_append_drop n b, hb]
+    simp
+  rw [ha', hb']
+  clear ha hb ha' hb'
+  induction p with
+  | nil => exact List.Lex.rel hxy
+  | cons q p ih => exact List.Lex.cons ih
+
 end Keys
 
 end Atree
